@@ -156,6 +156,8 @@ pub struct DataChannel {
     rx: TokioMutex<mpsc::UnboundedReceiver<DataChannelEvent>>,
     pub(crate) reassembly_buffer: Mutex<BytesMut>,
     pub(crate) send_lock: TokioMutex<()>,
+    /// The DCEP OPEN of this (in-band) channel has been queued on an established association.
+    pub(crate) dcep_open_queued: std::sync::atomic::AtomicBool,
 }
 
 impl DataChannel {
@@ -176,6 +178,7 @@ impl DataChannel {
             rx: TokioMutex::new(rx),
             reassembly_buffer: Mutex::new(BytesMut::new()),
             send_lock: TokioMutex::new(()),
+            dcep_open_queued: std::sync::atomic::AtomicBool::new(false),
         }
     }
 
